@@ -67,8 +67,13 @@ SITES = {
     # a store whose batch call fails but whose per-delta calls succeed has done the work: the count of applied
     # deltas legitimately differs from the do-nothing store; everything else must be equal
     "store_batch": {"deltas": True, "mask_prefix": "applied"}, "store_single": {"deltas": True, "mask_prefix": "applied"},
-    "sidecar": {},
+    # the sidecar writer is guarded twice (inside the writer around the file write, and at its call site): faults
+    # at the file write, at the timestamp helper (before the inner guard) and at the writer itself
+    "sidecar": {}, "sidecar_stamp": {}, "sidecar_fn": {},
 }
+# a malformed t3.llm section is itself a cause of adapter construction failure (the engine also runs on configurations
+# that were not normalised by the validator); set after validation
+LLM_JUNK = {"str": "ollama", "list": ["fixture", {"path": "/nonexistent"}], "num": 7}
 
 
 def _canon(records, snapdir, mask_prefixes=()):
@@ -153,6 +158,10 @@ def _patches_for(sites, exc, session):
                     raise exc("verif: sidecar")
                 return real(path, *a, **k)
             ps.append(E.patched_attr(S, atomic_write_text=aw))
+        elif site == "sidecar_stamp":
+            ps.append(E.patched_attr(S, _deterministic_created_at=boom))
+        elif site == "sidecar_fn":
+            ps.append(E.patched_attr(S, _write_sidecar_meta=boom))
     return ps
 
 
@@ -222,6 +231,8 @@ def run_case(case) -> List[Tuple[str, str]]:
                     f.write(GARBAGE[case["garbage"]])
             return s
         sF, sI = mk("faulty", cfg_f, True), mk("idle", cfg_i, False)
+        if case.get("llm_junk"):
+            sF.post_cfg = {("t3", "llm"): LLM_JUNK[case["llm_junk"]]}
         spec_faults = [f for f in sites if f in ("refl_compute", "refl_write", "refl_log")]     # injected by the turn runner itself
         inp_f = dict(inp, faults=spec_faults, plan_deltas=_deltas() if need_deltas else None)
         # idle baseline: the subsystem under test switched off
@@ -235,7 +246,7 @@ def run_case(case) -> List[Tuple[str, str]]:
                 sF.state["store"].new_turn(batch_raises=True, single_raises={"n:apple"} if "store_single" in sites else set())
             oF = sF.run(inp_f, extra_patches=lambda i, _s=sF: _patches_for(sites, exc, _s))
             oI = sI.run(inp_i)
-            where = f"sites={sites} exc={case['exc']} garbage={case.get('garbage')} turn {turn + 1}"
+            where = f"sites={sites} exc={case['exc']} garbage={case.get('garbage')} llm_junk={case.get('llm_junk')} turn {turn + 1}"
             if oF["raised"]:
                 fails.append(("TurnCompletes", f"{where}: run_turn raised {oF['raised']}"))
                 break
@@ -370,6 +381,8 @@ def check(run) -> None:
                 for w in (1, 2):
                     cases.append({"sites": [s], "exc": e, "workdir": run.workdir, "world": w})
         n += 1
+    for j in sorted(LLM_JUNK):
+        cases.append({"sites": ["llm_adapter"], "exc": excs[len(cases) % len(excs)], "workdir": run.workdir, "llm_junk": j})
     if not q:
         k = 0
         for i, a in enumerate(names):
